@@ -9,7 +9,7 @@ RULE = ('two families. (value) value recipe (strings with escapes, bytes, number
         'stdlib instances incl. timedelta operators) x (width, indent) x every style of the installed pygments plus the two '
         'bundled styles x colour mode in {true colour, 256, 8}, written by cpprint(stream=StringIO, end=...). (doc) document '
         'term with annotate() carrying syntax tokens nested up to depth 3 and opaque non-token annotations inside/outside '
-        'them, laid out and written by colored_render_to_stream. Exhaustive: a fixed corpus x every style x every mode, and '
+        'them (opaque objects, plain ints equal to Token members, unhashable values, None), text fragments ending in tabs / form feeds, laid out and written by colored_render_to_stream. Exhaustive: a fixed corpus x every style x every mode, and '
         'every Token member alone; random: Hypothesis values/terms x styles. Oracle: an independent SGR decoder - text with '
         'escapes removed == plain rendering of the same SDoc stream (+ end); rendering raises for no style; for every '
         'character the decoded (fg, bg, bold, italic, underline) state == the state of the innermost enclosing Token '
@@ -21,6 +21,7 @@ ASSUMPTIONS = ['colorful (own instance) is the trusted SGR encoder for a style a
 BUDGET = {'quick': {'random': 5000, 'shards': 16}, 'thorough': {'random': 200000, 'shards': 16}}
 
 MODES = ['true', '256', '8']
+RAW_ANNS = ['int3', 'int6', 'int14', 'list', 'dict', 'str', 'none']
 TOKEN_NAMES = ['KEYWORD_CONSTANT', 'NAME_BUILTIN', 'NAME_ENTITY', 'NAME_FUNCTION', 'NAME_VARIABLE', 'LITERAL_STRING',
                'STRING_AFFIX', 'STRING_ESCAPE', 'NUMBER_BINARY', 'NUMBER_FLOAT', 'NUMBER_INT', 'OPERATOR', 'PUNCTUATION',
                'COMMENT_SINGLE']
@@ -73,6 +74,14 @@ def enumerate_cases(tier):
                 if tier == 'quick' and mode != 'true':
                     continue
                 yield {'kind': 'doc', 't': ['ann', ['tok', tn], ['t', 'x']], 'w': 20, 'style': sname, 'mode': mode}
+    # non-token annotation values of every flavour inside and outside a token; text ending in non-space whitespace
+    for k in RAW_ANNS:
+        for sname in ('@dark', 'default', 'bw'):
+            yield {'kind': 'doc', 't': ['cat', [['ann', ['raw', k], ['t', 'p']], ['ann', ['tok', 'NUMBER_INT'], ['cat', [['t', 'a'], ['ann', ['raw', k], ['t', 'b']], ['t', 'c']]]]]],
+                   'w': 20, 'style': sname, 'mode': 'true'}
+    for txt in ('w\t', 'v \t ', 'u\x0c', '\t'):
+        yield {'kind': 'doc', 't': ['cat', [['ann', ['tok', 'COMMENT_SINGLE'], ['t', txt]], ['hard'], ['t', txt], ['t', ' '], ['hard'], ['t', 'end' + txt]]], 'w': 20,
+               'style': '@dark', 'mode': 'true'}
     # nested annotations, D14 witness
     d14 = ['ann', ['tok', 'NUMBER_INT'], ['cat', [['t', 'a'], ['ann', 0, ['t', 'b']], ['t', 'c']]]]
     for sname in names:
@@ -91,7 +100,8 @@ def strategy(tier):
     })
     doc = st.fixed_dictionaries({
         'kind': st.just('doc'),
-        't': docterm.term_strategy(classic=False, max_leaves=10, ann_keys=toks + toks + [0, 1]),
+        't': docterm.term_strategy(classic=False, max_leaves=10, ann_keys=toks + toks + [0, 1] + [['raw', k] for k in RAW_ANNS],
+                                   texts=['a', 'bb', 'ccc', 'x', ' ', '', ' y', 'z ', 'w\t', '\t', 'v \t ', 'u\x0c']),
         'w': st.sampled_from([5, 20, 60]), 'style': st.sampled_from(names), 'mode': st.sampled_from(MODES),
     })
     return st.one_of(val, doc)
